@@ -173,6 +173,9 @@ def bounded(tier, seed, repo_root):
                 jobs.append((a, b, o, False))
         else:
             jobs.append((a, b, opt, False))
+    for a, b in D.hash_collision_pairs():      # distinct values with equal Python hashes (-1 / -2, n / n + 2**61 - 1)
+        for o in gt.OPTION_COMBOS[::2]:
+            jobs.append((a, b, o, True))
     # CLI entry point on a sub-sample
     import random
     rnd = random.Random(seed)
